@@ -325,6 +325,41 @@ def oracle(ctx, ss, np, rng):
                     ctx.violation(f'SIS.{key_} updated to {newv} after sim.init() (through the {via} parameters) in a {simkw} sim: v = {float(tp.v)}, per-step value {got}; a fresh {type(tp).__name__}({newv}) converts to {want}', dict(probe='post-init-number', par=key_, sim=simkw, via=via))
         except Exception as E:
             ctx.violation(f'updating a time parameter after sim.init() raised {type(E).__name__}: {E}', dict(probe='post-init-number', sim=simkw))
+    # crude rates of the demographics modules: reported value vs the model (crude_rate_reported: count / alive / (units * SIM step in years), replayed in
+    # Coq) and vs the property (count divided by the step length of the module that counted it)
+    cterms, cmeta, offrate = [], [], []
+    for simkw, modkw in ((dict(unit='day', dt=1.0, start='2000-01-01', dur=1100), dict(unit='year', dt=1.0)), (dict(unit='year', dt=1.0, dur=6), dict()), (dict(unit='year', dt=0.5, dur=4), dict(unit='year', dt=1.0)),
+                         (dict(unit='year', dt=0.25, dur=3), dict())):
+        try:
+            sim = ss.Sim(n_agents=2000, verbose=0, rand_seed=rng.randrange(1, 10**4), demographics=[ss.Births(birth_rate=20, **modkw), ss.Deaths(death_rate=10, **modkw)], **simkw); sim.run()
+        except Exception as E:
+            ctx.dist('oracle:crude-rate config rejected'); continue
+        for mod, cntkey, ratekey in ((sim.demographics.births, 'new', 'cbr'), (sim.demographics.deaths, 'new', 'cmr')):
+            cnt = np.asarray(mod.results[cntkey], dtype=float); rep = np.asarray(mod.results[ratekey], dtype=float)
+            inds = mod.match_time_inds(); alive = np.asarray(sim.results.n_alive, dtype=float)[inds]
+            sdt, mdt, units = float(sim.t.dt_year), float(mod.t.dt_year), float(mod.pars.rate_units)
+            for t in range(len(cnt)):
+                if alive[t] <= 0 or (ratekey == 'cbr' and t == 0): continue
+                n += 1; ctx.dist('oracle:crude rate')
+                a_t = float(sim.people.alive.sum()) if False else alive[t]
+                if ratekey == 'cmr' and len(cterms) < ctx.n(60, 400):
+                    cterms.append(f'({qlit(float(cnt[t]))}, {qlit(float(alive[t]))}, {qlit(units)}, {qlit(sdt)}, {qlit(mdt)}, {qlit(float(rep[t]))})'); cmeta.append(dict(sim=simkw, module=type(mod).__name__, t=t))
+                own = cnt[t] / alive[t] / (units * mdt)
+                if ratekey == 'cmr' and not close(float(rep[t]), float(own), 1e-9): offrate.append((type(mod).__name__, simkw.get('unit'), simkw.get('dt'), modkw, t, float(rep[t]), float(own)) + (('same-step',) if abs(mdt - sdt) <= 1e-12 else ()))
+            if ratekey == 'cbr' and abs(mdt - sdt) > 1e-12:
+                # Births divides by the population at recording time, which the run does not keep: compare the ratio reported / (count / n_alive / (units * own step)) with 1 loosely
+                own = cnt[1:] / alive[1:] / (units * mdt); ratio = np.nanmedian(rep[1:] / np.where(own > 0, own, np.nan))
+                if not (0.8 < ratio < 1.25): offrate.append((type(mod).__name__, simkw.get('unit'), simkw.get('dt'), modkw, 'median ratio', float(ratio), 1.0))
+    bad = ctx.coq_mismatches('crude', 'Model.Prelude Model.L3_Units Gen.Gen_Time Model.L3_TimePar', 'Q * Q * Q * Q * Q * Q', cterms, "Definition ok (c : Q * Q * Q * Q * Q * Q) : bool := let '(cnt, al, un, sdt, mdt, r) := c in Qclose ((1 # 1000000000) * (1 + r)) (crude_rate_reported cnt al un sdt mdt) r.", shard=300)
+    for j in bad[:3]: ctx.broke('correspondence', 'a reported crude mortality rate differs from crude_rate_reported (count / alive / (units * sim step in years))', repr(cmeta[j]))
+    ctx.cov['crude_rates_replayed'] = len(cterms)
+    same_step = [o for o in offrate if o[-1] == 'same-step']
+    offrate = [o for o in offrate if o[-1] != 'same-step']
+    if same_step:
+        ctx.violation(f'a crude rate of a module stepping WITH the sim is not the per-step count divided by the step length: {same_step[:4]}', dict(probe='crude-rate-same-step', cases=same_step[:8]))
+    if offrate:
+        ctx.violation(f'a crude rate is not the per-step count divided by the step length of the module that counted it (module, sim unit, sim dt, module time, step, reported, count / alive / (units * own step)): {offrate[:4]}',
+                      dict(probe='crude-rate', cases=offrate[:8], finding_key='crude-rates-use-sim-step-length'))
     ctx.cov['oracle_evaluations'] = n
 
 
